@@ -156,6 +156,13 @@ def fstring_pattern(e: ast.AST) -> Optional[str]:
                     spec = ":" + "".join(str(x.value) for x in v.format_spec.values if isinstance(x, ast.Constant))
                 out += "{" + spec + "}"
         return out
+    if isinstance(e, ast.BinOp) and isinstance(e.op, ast.Add):
+        l, r = fstring_pattern(e.left), fstring_pattern(e.right)
+        return None if l is None or r is None else l + r
+    if isinstance(e, ast.Call) and isinstance(e.func, ast.Attribute) and e.func.attr == "format" and isinstance(e.func.value, ast.Constant) \
+            and isinstance(e.func.value.value, str) and not e.keywords:
+        import re as _re
+        return _re.sub(r"\{[^}:]*(:[^}]*)?\}", lambda m_: "{" + (m_.group(1) or "") + "}", e.func.value.value)
     return None
 
 
